@@ -1,0 +1,28 @@
+//go:build verif
+
+package ocppj
+
+// Hooks for the external verification harness (only built with the tag "verif").
+// They add no behaviour to the library: they let the harness play the role of the
+// environment (expiry of a timer) deterministically instead of waiting for real time.
+
+// VerifFireTimer makes the client dispatcher's timer expire now, as if its current
+// deadline (request timeout or idle tick) had been reached.
+func (d *DefaultClientDispatcher) VerifFireTimer() {
+	d.mutex.RLock()
+	t := d.timer
+	d.mutex.RUnlock()
+	if t != nil {
+		t.Reset(0)
+	}
+}
+
+// VerifTimeoutToken delivers a request-timeout notification for clientID to the server
+// dispatcher's message pump, exactly as waitForTimeout does when a timeout context expires.
+func (d *DefaultServerDispatcher) VerifTimeoutToken(clientID string) {
+	d.mutex.RLock()
+	defer d.mutex.RUnlock()
+	if d.running {
+		d.timerC <- clientID
+	}
+}
